@@ -233,7 +233,8 @@ def run_check(prop_id, tier, seed, procs=None, only=None):
         print(ln)
 
     # ---------------- evidence
-    counted = [o for o in obs if not any(o in v for v in known_hits.values())]
+    bounded_obs = [o for o in obs if o['kind'] == 'bounded']
+    counted = [o for o in obs if o['kind'] != 'bounded' and not any(o in v for v in known_hits.values())]
     discharged = [o for o in counted if o['status'] == 'proved']
     by_backend = {}
     for o in counted:
@@ -289,6 +290,7 @@ def run_check(prop_id, tier, seed, procs=None, only=None):
         engine_errors=[o['name'] + ': ' + str(o.get('reason', ''))[-400:] for o in errors][:10],
         ledger_missing_groups=ledger_missing[:20],
         bounded=list(getattr(mod, 'BOUNDED', [])),
+        bounded_standins=[dict(name=o['name'], status=o['status'], note='bounded stand-in: not counted among obligations/discharged') for o in bounded_obs],
         not_decided=list(getattr(mod, 'NOT_DECIDED', [])),
         quantified=getattr(mod, 'QUANTIFIED', ''),
         enumerated=(mod.enumerated(tier) if hasattr(mod, 'enumerated') else ''),
